@@ -982,3 +982,362 @@ pub proof fn lemma_relink_wf<T>(o: Arena<T>, n: Arena<T>)
     assert(free_list(n.nodes@, n.first_free_slot, n.last_free_slot, fl));
 }
 
+/// what `transplant` relies on (every clause is checked by one of its debug assertions or is
+/// needed for one of them to hold afterwards)
+pub open spec fn transplant_pre<T>(s: Seq<Node<T>>, c: Seq<int>, f: NodeId, l: NodeId, parent: Option<NodeId>, prev: Option<NodeId>, next: Option<NodeId>) -> bool {
+    &&& is_chain(s, f.idx(), c) && c[c.len() - 1] == l.idx()
+    &&& !s[f.idx()].stamp.removed() && !s[l.idx()].stamp.removed()
+    &&& parent is Some ==> {
+        let pi = parent->0.idx();
+        &&& 0 <= pi < s.len() && !s[pi].stamp.removed() && !c.contains(pi)
+        &&& (s[pi].first_child is Some) == (s[pi].last_child is Some)
+        &&& prev is Some ==> s[pi].first_child is Some
+        &&& next is Some ==> s[pi].last_child is Some
+        &&& s[pi].first_child is Some ==> {
+            let z = s[pi].first_child->0.idx();
+            0 <= z < s.len() && !c.contains(z) && s[z].parent == parent && s[z].previous_sibling is None
+        }
+        &&& s[pi].last_child is Some ==> {
+            let y = s[pi].last_child->0.idx();
+            0 <= y < s.len() && !c.contains(y) && s[y].parent == parent && s[y].next_sibling is None
+        }
+    }
+    &&& prev is Some ==> {
+        let a = prev->0.idx();
+        0 <= a < s.len() && !s[a].stamp.removed() && !c.contains(a) && s[a].parent == parent && s[a].next_sibling == next
+    }
+    &&& next is Some ==> {
+        let b = next->0.idx();
+        0 <= b < s.len() && !s[b].stamp.removed() && !c.contains(b) && s[b].parent == parent && s[b].previous_sibling == prev
+    }
+    &&& prev is Some && next is Some ==> prev->0.idx() != next->0.idx()
+}
+
+/// exact effect of `transplant`, mirroring the code
+pub open spec fn transplant_post<T>(o: Seq<Node<T>>, n: Seq<Node<T>>, c: Seq<int>, f: NodeId, l: NodeId, parent: Option<NodeId>, prev: Option<NodeId>, next: Option<NodeId>) -> bool {
+    &&& n.len() == o.len()
+    &&& forall|i: int|
+        0 <= i < o.len() ==> {
+            &&& (#[trigger] n[i]).stamp == o[i].stamp && n[i].data == o[i].data
+            &&& n[i].parent == (if c.contains(i) {
+                parent
+            } else {
+                o[i].parent
+            })
+            &&& n[i].previous_sibling == (if i == f.idx() {
+                prev
+            } else if next is Some && i == next->0.idx() {
+                Some(l)
+            } else {
+                o[i].previous_sibling
+            })
+            &&& n[i].next_sibling == (if i == l.idx() {
+                next
+            } else if prev is Some && i == prev->0.idx() {
+                Some(f)
+            } else {
+                o[i].next_sibling
+            })
+            &&& n[i].first_child == (if parent is Some && i == parent->0.idx() {
+                if prev is Some {
+                    if o[i].first_child is Some {
+                        o[i].first_child
+                    } else {
+                        prev
+                    }
+                } else {
+                    Some(f)
+                }
+            } else {
+                o[i].first_child
+            })
+            &&& n[i].last_child == (if parent is Some && i == parent->0.idx() {
+                if next is Some {
+                    if o[i].last_child is Some {
+                        o[i].last_child
+                    } else {
+                        Some(f)
+                    }
+                } else {
+                    Some(l)
+                }
+            } else {
+                o[i].last_child
+            })
+        }
+}
+
+// ---- inserting a detached root at a gap (C01, C02, C03) --------------------------------------
+/// (parent, prev, next) is a position in the forest: two adjacent siblings, or an end of a
+/// child list, or an end of a top-level chain
+pub open spec fn is_gap<T>(s: Seq<Node<T>>, parent: Option<NodeId>, prev: Option<NodeId>, next: Option<NodeId>) -> bool {
+    &&& prev is Some ==> tgt_ok(s, prev) && s[prev->0.idx()].parent == parent && s[prev->0.idx()].next_sibling == next
+    &&& next is Some ==> tgt_ok(s, next) && s[next->0.idx()].parent == parent && s[next->0.idx()].previous_sibling == prev
+    &&& parent is Some ==> tgt_ok(s, parent) && (prev is None ==> s[parent->0.idx()].first_child == next) && (next is None
+        ==> s[parent->0.idx()].last_child == prev)
+}
+
+pub open spec fn is_root<T>(s: Seq<Node<T>>, x: int) -> bool {
+    s[x].parent is None && s[x].previous_sibling is None && s[x].next_sibling is None
+}
+
+pub open spec fn not_at(x: int, l: Option<NodeId>) -> bool {
+    l is Some ==> l->0.idx() != x
+}
+
+/// exact effect (C03) of inserting the detached root `x` at the gap: x gets the requested
+/// parent and neighbours, they get x, and nothing else changes
+pub open spec fn insert_post<T>(o: Seq<Node<T>>, n: Seq<Node<T>>, x: NodeId, parent: Option<NodeId>, prev: Option<NodeId>, next: Option<NodeId>) -> bool {
+    &&& n.len() == o.len()
+    &&& forall|i: int|
+        0 <= i < o.len() ==> {
+            &&& (#[trigger] n[i]).stamp == o[i].stamp && n[i].data == o[i].data
+            &&& n[i].parent == (if i == x.idx() {
+                parent
+            } else {
+                o[i].parent
+            })
+            &&& n[i].previous_sibling == (if i == x.idx() {
+                prev
+            } else if next is Some && i == next->0.idx() {
+                Some(x)
+            } else {
+                o[i].previous_sibling
+            })
+            &&& n[i].next_sibling == (if i == x.idx() {
+                next
+            } else if prev is Some && i == prev->0.idx() {
+                Some(x)
+            } else {
+                o[i].next_sibling
+            })
+            &&& n[i].first_child == (if parent is Some && i == parent->0.idx() && prev is None {
+                Some(x)
+            } else {
+                o[i].first_child
+            })
+            &&& n[i].last_child == (if parent is Some && i == parent->0.idx() && next is None {
+                Some(x)
+            } else {
+                o[i].last_child
+            })
+        }
+}
+
+/// r is y or an ancestor of y (evaluated along the parent links, bounded by the depth rank)
+pub open spec fn in_sub<T>(s: Seq<Node<T>>, w: Ranks, r: int, y: int) -> bool
+    decreases (w.depth)(y),
+{
+    y == r || (0 <= y < s.len() && s[y].parent is Some && (w.depth)(s[y].parent->0.idx()) < (w.depth)(y) && in_sub(
+        s,
+        w,
+        r,
+        s[y].parent->0.idx(),
+    ))
+}
+
+pub proof fn lemma_gap_transplant_pre<T>(s: Seq<Node<T>>, w: Ranks, x: NodeId, parent: Option<NodeId>, prev: Option<NodeId>, next: Option<NodeId>)
+    requires
+        links_ok(s),
+        ranked(s, w),
+        0 <= x.idx() < s.len(),
+        !s[x.idx()].stamp.removed(),
+        is_root(s, x.idx()),
+        is_gap(s, parent, prev, next),
+        not_at(x.idx(), parent),
+        not_at(x.idx(), prev),
+        not_at(x.idx(), next),
+    ensures
+        transplant_pre(s, seq![x.idx()], x, x, parent, prev, next),
+{
+    reveal(node_ok);
+    let c = seq![x.idx()];
+    assert(is_chain(s, x.idx(), c));
+    assert forall|i: int| c.contains(i) implies i == x.idx() by {}
+    if prev is Some {
+        assert(node_ok(s, prev->0.idx()));
+        assert(ranked_at(s, w, prev->0.idx()));
+    }
+    if next is Some {
+        assert(node_ok(s, next->0.idx()));
+    }
+    if parent is Some {
+        let pi = parent->0.idx();
+        assert(node_ok(s, pi));
+        if prev is Some {
+            lemma_parent_has_first(s, w, prev->0.idx());
+        }
+        if next is Some {
+            lemma_parent_has_last(s, w, next->0.idx());
+        }
+        if s[pi].first_child is Some {
+            let z = s[pi].first_child->0.idx();
+            assert(node_ok(s, z));
+            lemma_id_eq(s[z].parent->0, parent->0);
+        }
+        if s[pi].last_child is Some {
+            let y = s[pi].last_child->0.idx();
+            assert(node_ok(s, y));
+            lemma_id_eq(s[y].parent->0, parent->0);
+        }
+    }
+}
+
+#[verifier::rlimit(200)]
+pub proof fn lemma_insert_links<T>(o: Seq<Node<T>>, n: Seq<Node<T>>, w: Ranks, x: NodeId, parent: Option<NodeId>, prev: Option<NodeId>, next: Option<NodeId>)
+    requires
+        links_ok(o),
+        ranked(o, w),
+        0 <= x.idx() < o.len(),
+        o[x.idx()].stamp == x.stamp,
+        !x.stamp.removed(),
+        is_root(o, x.idx()),
+        is_gap(o, parent, prev, next),
+        not_at(x.idx(), parent),
+        not_at(x.idx(), prev),
+        not_at(x.idx(), next),
+        transplant_post(o, n, seq![x.idx()], x, x, parent, prev, next),
+    ensures
+        links_ok(n),
+        insert_post(o, n, x, parent, prev, next),
+{
+    reveal(node_ok);
+    let c = seq![x.idx()];
+    let xi = x.idx();
+    assert(c.contains(xi)) by {
+        assert(c[0] == xi);
+    }
+    assert forall|i: int| c.contains(i) implies i == xi by {}
+    assert(node_ok(o, xi));
+    if prev is Some {
+        assert(node_ok(o, prev->0.idx()));
+        assert(ranked_at(o, w, prev->0.idx()));
+    }
+    if next is Some {
+        assert(node_ok(o, next->0.idx()));
+    }
+    if parent is Some {
+        let pi = parent->0.idx();
+        assert(node_ok(o, pi));
+        if prev is Some {
+            lemma_parent_has_first(o, w, prev->0.idx());
+        }
+        if next is Some {
+            lemma_parent_has_last(o, w, next->0.idx());
+        }
+    }
+    assert(insert_post(o, n, x, parent, prev, next));
+    assert forall|i: int| 0 <= i < n.len() implies #[trigger] node_ok(n, i) by {
+        assert(node_ok(o, i));
+        if o[i].parent is Some {
+            assert(node_ok(o, o[i].parent->0.idx()));
+        }
+        if o[i].previous_sibling is Some {
+            assert(node_ok(o, o[i].previous_sibling->0.idx()));
+        }
+        if o[i].next_sibling is Some {
+            assert(node_ok(o, o[i].next_sibling->0.idx()));
+        }
+        if o[i].first_child is Some {
+            assert(node_ok(o, o[i].first_child->0.idx()));
+        }
+        if o[i].last_child is Some {
+            assert(node_ok(o, o[i].last_child->0.idx()));
+        }
+    }
+}
+
+pub proof fn lemma_insert_ranks<T>(o: Seq<Node<T>>, n: Seq<Node<T>>, w: Ranks, x: NodeId, parent: Option<NodeId>, prev: Option<NodeId>, next: Option<NodeId>)
+    requires
+        links_ok(o),
+        ranked(o, w),
+        0 <= x.idx() < o.len(),
+        !o[x.idx()].stamp.removed(),
+        is_root(o, x.idx()),
+        is_gap(o, parent, prev, next),
+        not_at(x.idx(), parent),
+        not_at(x.idx(), prev),
+        not_at(x.idx(), next),
+        parent is Some ==> (w.depth)(x.idx()) > (w.depth)(parent->0.idx()),
+        insert_post(o, n, x, parent, prev, next),
+    ensures
+        exists|w2: Ranks| ranked(n, w2),
+{
+    reveal(node_ok);
+    let xi = x.idx();
+    let t: int = if next is Some { (w.rem)(next->0.idx()) as int } else { -1 };
+    let r: int = (w.rem)(xi) as int + 1;
+    let tp: int = if prev is Some { (w.pos)(prev->0.idx()) as int } else { -1 };
+    let rp: int = (w.pos)(xi) as int + 1;
+    let rem2 = |i: int| -> nat {
+        if i == xi {
+            (t + 1 + (w.rem)(xi)) as nat
+        } else if (w.rem)(i) > t {
+            ((w.rem)(i) + r + 1) as nat
+        } else {
+            (w.rem)(i)
+        }
+    };
+    let pos2 = |i: int| -> nat {
+        if i == xi {
+            (tp + 1 + (w.pos)(xi)) as nat
+        } else if (w.pos)(i) > tp {
+            ((w.pos)(i) + rp + 1) as nat
+        } else {
+            (w.pos)(i)
+        }
+    };
+    let w2 = Ranks { depth: w.depth, rem: rem2, pos: pos2, bound: w.bound };
+    assert(node_ok(o, xi));
+    if prev is Some {
+        assert(node_ok(o, prev->0.idx()));
+        assert(ranked_at(o, w, prev->0.idx()));
+    }
+    if next is Some {
+        assert(node_ok(o, next->0.idx()));
+    }
+    assert forall|i: int| 0 <= i < n.len() implies #[trigger] ranked_at(n, w2, i) by {
+        assert(ranked_at(o, w, i));
+        assert(node_ok(o, i));
+        if o[i].next_sibling is Some {
+            let j = o[i].next_sibling->0.idx();
+            assert(node_ok(o, j));
+            assert(j != xi);
+        }
+    }
+    assert(ranked(n, w2));
+}
+
+/// re-rank the subtree of the detached root x below p (needs: x is not an ancestor of p)
+pub proof fn lemma_shift_subtree<T>(s: Seq<Node<T>>, w: Ranks, x: int, p: int)
+    requires
+        ranked(s, w),
+        0 <= x < s.len(),
+        0 <= p < s.len(),
+        s[x].parent is None,
+        !in_sub(s, w, x, p),
+    ensures
+        exists|w2: Ranks| ranked(s, w2) && (w2.depth)(x) > (w2.depth)(p),
+{
+    let d = (w.depth)(p);
+    let depth2 = |y: int| -> nat {
+        if in_sub(s, w, x, y) {
+            ((w.depth)(y) + d + 1) as nat
+        } else {
+            (w.depth)(y)
+        }
+    };
+    let w2 = Ranks { depth: depth2, rem: w.rem, pos: w.pos, bound: (2 * w.bound + 1) as nat };
+    assert(ranked_at(s, w, p));
+    assert(in_sub(s, w, x, x));
+    assert forall|i: int| 0 <= i < s.len() implies #[trigger] ranked_at(s, w2, i) by {
+        assert(ranked_at(s, w, i));
+        if s[i].parent is Some {
+            let q = s[i].parent->0.idx();
+            // in_sub(x, i) unfolds to: i == x, or in_sub(x, q)
+            assert(in_sub(s, w, x, i) == (i == x || in_sub(s, w, x, q)));
+        }
+    }
+    assert(ranked(s, w2));
+}
+
